@@ -108,7 +108,7 @@ def _vector_index_expand(q, i):
         ind = []
         for _ in range(q):
             ind.append(i % 2)
-            i = int(i / 2)
+            i = i // 2
         if i > 0:
             raise ValueError('Index is out of range.')
 
